@@ -290,6 +290,23 @@ func (c *Ctx) applyContract(s *State, in ssa.Instruction, fc *FuncContract, call
 	if fc.Unverified {
 		c.assumedUsed[fc.Key+" (repo function; contract used but not verified: "+fc.UnverifiedWhy+")"] = true
 	}
+	// lock order across contract boundaries: the callee may acquire locks of level >= AcquiresLevel
+	if fc.AcquiresLevel > 0 {
+		ok := true
+		worst := ""
+		for _, l := range s.locks {
+			if l.Level != 0 && l.Level >= fc.AcquiresLevel {
+				ok = false
+				worst = l.Key
+			}
+		}
+		c.structural(ok, "locklevel", fmt.Sprintf("%s/lockorder@%s#%d:%s", fnKey(in.Parent()), otag(in), c.ordinal("call", in), shortName(fc.Key)), pos,
+			fmt.Sprintf("lock order: calling %s (acquires locks of level >= %d) while holding %s", fc.Key, fc.AcquiresLevel, worst), []string{"C13"})
+		if cur := c.eng.contracts.funcs[qualFnName(c.fn)]; cur != nil && in.Parent() == c.fn {
+			c.structural(cur.AcquiresLevel > 0 && fc.AcquiresLevel >= cur.AcquiresLevel, "locklevel", fmt.Sprintf("%s/lockorder@%s#%d:%s:declared", fnKey(in.Parent()), otag(in), c.ordinal("call", in), shortName(fc.Key)), pos,
+				fmt.Sprintf("callee %s acquires level %d, below this function's declared acquires-level %d", fc.Key, fc.AcquiresLevel, cur.AcquiresLevel), []string{"C13"})
+		}
+	}
 	env := c.callEnv(s, fc, callee, cc, recv, args)
 	c.bindFreeVars(env, callee, binds)
 	pre := s.snapshot()
